@@ -610,6 +610,11 @@ fn gen_c13_plan(seed: u64) -> EncPlan {
             _ => p.families[i].metrics.clear(),
         }
     }
+    if p.families.len() >= 2 && r.chance(10) {
+        // two adjacent families with one name (two registries gathered into one batch): both are written
+        let i = r.below(p.families.len() as u64 - 1) as usize;
+        p.families[i + 1].name = p.families[i].name.clone();
+    }
     if r.chance(10) {
         // payload of another type / missing payload: the wire format must still carry what is there
         let i = r.below(p.families.len() as u64) as usize;
@@ -887,6 +892,17 @@ fn execute_c17(plan: &ApiPlan) -> RunOut {
                     guard("Registry::unregister({a})", false, catch(|| reg.unregister(mk(&[d("c17_a")], 0)).is_ok()));
                     guard("Registry::register({a,c}) after {a} was unregistered", false, catch(|| reg.register(mk(&[d("c17_a"), d("c17_c")], 2)).is_ok()));
                     guard("Registry::register({c}) while {a,c} is registered", true, catch(|| reg.register(mk(&[d("c17_c")], 3)).is_ok()));
+                    // a collector that lists one descriptor twice: whatever the answer is, it cannot depend
+                    // on WHERE in the list the repeat sits
+                    let answers: Vec<std::result::Result<bool, String>> = [["c17_p", "c17_p", "c17_q"], ["c17_p", "c17_q", "c17_p"], ["c17_q", "c17_p", "c17_p"]]
+                        .iter()
+                        .map(|names| {
+                            let fresh = Registry::new();
+                            catch(|| fresh.register(mk(&[d(names[0]), d(names[1]), d(names[2])], 4)).is_ok())
+                        })
+                        .collect();
+                    let same = answers.windows(2).all(|w| w[0] == w[1]);
+                    guard("Registry::register(collector with a repeated descriptor at different positions)", !same, answers[1].clone().map(|x| x || !same));
                 }
             }
         }
